@@ -14,7 +14,9 @@
 //!   D. fixtures   : every `tests/*.xlsm|xlsb|xls` of the repo that carries a VBA project: impl vs model on the real
 //!      dir stream, module streams and the whole project.
 use calamine::vba::{Reference, VbaError, VbaProject};
+#[cfg(feature = "hooks")]
 use calamine::verif_hooks::cfb::{decompress_stream, Cfb, CfbError, XlsEncoding};
+#[cfg(feature = "hooks")]
 use calamine::verif_hooks::vba as vhook;
 use std::collections::BTreeMap;
 use std::io::{Cursor, Read};
@@ -405,6 +407,70 @@ fn digest(b: &[u8]) -> String {
     format!("{}:{}", b.len(), fnv64(b))
 }
 
+/// the decoder used to turn the MODEL's byte strings into text. With hooks: calamine's own `XlsEncoding` (the model
+/// leaves decoding to encoding_rs, as the code does). Without hooks (`--no-default-features`, see `./check`): an
+/// independent decoder from the tables of this file, complete for everything the generators emit and the fixtures
+/// contain (ASCII; 1252, 1251 all bytes; 932 half-width katakana, hiragana and katakana rows; 65001; 1200).
+#[cfg(feature = "hooks")]
+type Enc = XlsEncoding;
+#[cfg(not(feature = "hooks"))]
+struct Enc(u16);
+#[cfg(not(feature = "hooks"))]
+impl Enc {
+    fn from_codepage(cp: u16) -> Result<Enc, ()> {
+        Ok(Enc(cp))
+    }
+    fn decode_all(&self, b: &[u8]) -> String {
+        match self.0 {
+            65001 => String::from_utf8_lossy(b).into_owned(),
+            1200 => String::from_utf16_lossy(&b.chunks(2).map(|c| u16::from_le_bytes([c[0], *c.get(1).unwrap_or(&0)])).collect::<Vec<_>>()),
+            1252 | 1251 => b.iter().map(|x| if *x < 0x80 { *x as char } else { hi_char(self.0, *x) }).collect(),
+            932 => {
+                let mut s = String::new();
+                let mut i = 0;
+                while i < b.len() {
+                    let x = b[i];
+                    let y = b.get(i + 1).copied().unwrap_or(0);
+                    if x < 0x80 {
+                        s.push(x as char);
+                    } else if (0xA1..=0xDF).contains(&x) {
+                        s.push(hi_char(932, x));
+                    } else if x == 0x82 && (0x9F..=0xF1).contains(&y) {
+                        s.push(char::from_u32(0x3041 + (y as u32 - 0x9F)).unwrap());
+                        i += 1;
+                    } else if x == 0x83 && (0x40..=0x96).contains(&y) && y != 0x7F {
+                        let k = if y < 0x7F { y as u32 - 0x40 } else { y as u32 - 0x80 + 63 };
+                        s.push(char::from_u32(0x30A1 + k).unwrap());
+                        i += 1;
+                    } else {
+                        s.push('\u{FFFD}');
+                    }
+                    i += 1;
+                }
+                s
+            }
+            _ => b.iter().map(|x| if *x < 0x80 { *x as char } else { '\u{FFFD}' }).collect(),
+        }
+    }
+}
+
+/// error class of a `CfbError` seen only through `Debug` (its type cannot be named without the hooks)
+#[cfg(not(feature = "hooks"))]
+fn cfb_class<E: std::fmt::Debug>(e: &E) -> String {
+    let d = format!("{e:?}");
+    let v = d.split(|c: char| !c.is_alphanumeric()).next().unwrap_or("");
+    match v {
+        "Io" => "err:io".into(),
+        "Ole" => "err:ole".into(),
+        "EmptyRootDir" => "err:emptyroot".into(),
+        "StreamNotFound" => "err:streamnotfound".into(),
+        "Invalid" => "err:invalid".into(),
+        "CodePageNotFound" => "err:codepage".into(),
+        other => format!("err:cfb-{other}"),
+    }
+}
+
+#[cfg(feature = "hooks")]
 fn cfb_class(e: &CfbError) -> String {
     match e {
         CfbError::Io(_) => "err:io".into(),
@@ -427,7 +493,49 @@ fn vba_class(e: &VbaError) -> String {
     }
 }
 
+/// a container of `data` made of literal-only chunks of at most 3000 bytes (decodable by construction; written
+/// here so that no implementation code is involved)
+#[cfg(not(feature = "hooks"))]
+fn literal_container(data: &[u8]) -> Vec<u8> {
+    let mut out = vec![1u8];
+    for block in data.chunks(3000) {
+        let mut body = vec![];
+        for g in block.chunks(8) {
+            body.push(0u8);
+            body.extend_from_slice(g);
+        }
+        let h = 0xB000u16 | (body.len() as u16 - 1);
+        out.extend_from_slice(&h.to_le_bytes());
+        out.extend(body);
+    }
+    out
+}
+
+/// without the hooks `decompress_stream` is private: it is reached through the public API by wrapping the container
+/// under test as the only module stream (text offset 0) of a minimal VBA project in a compound file and reading it
+/// with `VbaProject::new` + `get_module_raw`
+#[cfg(not(feature = "hooks"))]
+fn impl_dec(bytes: &[u8]) -> (String, Option<Vec<u8>>) {
+    use std::sync::OnceLock;
+    static DIRC: OnceLock<Vec<u8>> = OnceLock::new();
+    let dirc = DIRC.get_or_init(|| {
+        let name = (b"M".to_vec(), "M".to_string());
+        let p = ProjSpec { cp: 1252, compat: false, refs: vec![], mods: vec![ModSpec { name: name.clone(), stream: name, offset: 0, text: (vec![], String::new()), private: false, readonly: false, doc: false }] };
+        literal_container(&build_dir(&p, &mut Rng::new(18)).0)
+    });
+    let file = write_cfb(&[("dir".to_string(), dirc.clone()), ("M".to_string(), bytes.to_vec())], &CfbOpts::default(), &mut Rng::new(18));
+    match guarded(|| {
+        let mut cur = Cursor::new(&file[..]);
+        VbaProject::new(&mut cur, file.len()).map(|vp| vp.get_module_raw("M").map(|r| r.to_vec()).unwrap_or_default())
+    }) {
+        Ok(Ok(v)) => (format!("ok:{}", digest(&v)), Some(v)),
+        Ok(Err(e)) => (vba_class(&e), None),
+        Err(_) => ("panic".into(), None),
+    }
+}
+
 /// outcome of the real `decompress_stream` in the driver's digest form
+#[cfg(feature = "hooks")]
 fn impl_dec(bytes: &[u8]) -> (String, Option<Vec<u8>>) {
     match guarded(|| decompress_stream(bytes)) {
         Ok(Ok(v)) => (format!("ok:{}", digest(&v)), Some(v)),
@@ -1163,7 +1271,7 @@ fn canon_model_project(reply: &str) -> Result<String, String> {
         return Err(reply.to_string());
     }
     let cp: u16 = f[1].parse().map_err(|_| reply.to_string())?;
-    let enc = XlsEncoding::from_codepage(cp).map_err(|_| "err:codepage".to_string())?;
+    let enc = Enc::from_codepage(cp).map_err(|_| "err:codepage".to_string())?;
     let mut s = String::new();
     if f[2] != "-" {
         for r in f[2].split(';') {
@@ -1188,6 +1296,7 @@ fn canon_model_project(reply: &str) -> Result<String, String> {
     Ok(s)
 }
 
+#[cfg(feature = "hooks")]
 fn canon_dirwalk_impl(d: &vhook::DirWalk, refs: &[Reference]) -> String {
     let mut s = String::new();
     for r in refs {
@@ -1202,13 +1311,14 @@ fn canon_dirwalk_impl(d: &vhook::DirWalk, refs: &[Reference]) -> String {
     s
 }
 
+#[cfg(feature = "hooks")]
 fn canon_dirwalk_model(reply: &str) -> Result<String, String> {
     let f: Vec<&str> = reply.split(' ').collect();
     if f.len() != 4 || f[0] != "ok" {
         return Err(reply.to_string());
     }
     let cp: u16 = f[1].parse().map_err(|_| reply.to_string())?;
-    let enc = XlsEncoding::from_codepage(cp).map_err(|_| "err:codepage".to_string())?;
+    let enc = Enc::from_codepage(cp).map_err(|_| "err:codepage".to_string())?;
     let mut s = String::new();
     if f[2] != "-" {
         for r in f[2].split(';') {
@@ -1230,6 +1340,7 @@ fn canon_dirwalk_model(reply: &str) -> Result<String, String> {
     Ok(s)
 }
 
+#[cfg(feature = "hooks")]
 fn impl_dirwalk(dir: &[u8]) -> String {
     match guarded(|| vhook::dir_walk(dir)) {
         Ok(Ok(d)) => canon_dirwalk_impl(&d, &d.references),
@@ -1238,6 +1349,38 @@ fn impl_dirwalk(dir: &[u8]) -> String {
     }
 }
 
+/// without the hooks the dir walk is private. Valid dir streams are covered by the project stage anyway; a
+/// malformed one is wrapped (literal-only container) as the `dir` stream of a compound file WITHOUT module streams
+/// and read with `VbaProject::new`: outcome class (ok / err:<class> / panic) against the model's `proj`
+#[cfg(not(feature = "hooks"))]
+fn run_dirwalk(cx: &mut Ctx, dir: &[u8], label: &str, expect: Option<&str>) {
+    if expect.is_some() {
+        cx.rep.count("dirwalk:valid:left-to-the-project-stage(no hooks)");
+        return;
+    }
+    let dirc = literal_container(dir);
+    let file = write_cfb(&[("dir".to_string(), dirc.clone())], &CfbOpts::default(), &mut Rng::new(18));
+    let imp = match guarded(|| {
+        let mut cur = Cursor::new(&file[..]);
+        VbaProject::new(&mut cur, file.len()).map(|_| ())
+    }) {
+        Ok(Ok(())) => "ok".to_string(),
+        Ok(Err(e)) => vba_class(&e),
+        Err(_) => "panic".into(),
+    };
+    let reply = cx.drv.ask(&format!("proj {} -", hex(&dirc)));
+    let model = if reply.starts_with("ok ") { "ok".to_string() } else { reply.clone() };
+    let input = format!("dir {}", hex(dir));
+    cx.rep.count(&format!("dirwalk-through-VbaProject::new:{label}:{imp}"));
+    if class_of(&imp) != class_of(&model) {
+        cx.rep.fail("impl_vs_model", &format!("dirwalk:{label}"), &input, &imp, &model, "");
+    } else if imp == "panic" {
+        let site = model.strip_prefix("panic:").unwrap_or("?");
+        cx.rep.fail("impl_vs_spec", &format!("malformed-panic:{site}"), &input, &imp, &model, "Err, not a panic (C06)");
+    }
+}
+
+#[cfg(feature = "hooks")]
 fn run_dirwalk(cx: &mut Ctx, dir: &[u8], label: &str, expect: Option<&str>) {
     let reply = cx.drv.ask(&format!("dir {}", hex(dir)));
     let model = canon_dirwalk_model(&reply).unwrap_or_else(|e| e);
@@ -1593,6 +1736,9 @@ fn run_project_spec(cx: &mut Ctx, p: &ProjSpec, label: &str, dup: Option<(u8, bo
     }
     // the compound-file layer is C13's subject, but a stream that is not read back as written is reported here too
     // (never skipped): names that occur once must give their content
+    #[cfg(not(feature = "hooks"))]
+    let readback: Option<String> = None; // `Cfb` is not reachable without the hooks; the project comparison below stands
+    #[cfg(feature = "hooks")]
     let readback = guarded(|| {
         let mut cur = Cursor::new(&file[..]);
         let mut cfb = match Cfb::new(&mut cur, file.len()) {
@@ -1730,9 +1876,16 @@ fn xls_workbook_stream() -> &'static Vec<u8> {
     static WB: OnceLock<Vec<u8>> = OnceLock::new();
     WB.get_or_init(|| {
         let bytes = std::fs::read("/repo/tests/any_sheets.xls").expect("xls template");
-        let mut cur = Cursor::new(&bytes[..]);
-        let mut cfb = Cfb::new(&mut cur, bytes.len()).expect("xls template cfb");
-        cfb.get_stream("Workbook", &mut cur).expect("Workbook stream")
+        #[cfg(feature = "hooks")]
+        {
+            let mut cur = Cursor::new(&bytes[..]);
+            let mut cfb = Cfb::new(&mut cur, bytes.len()).expect("xls template cfb");
+            cfb.get_stream("Workbook", &mut cur).expect("Workbook stream")
+        }
+        #[cfg(not(feature = "hooks"))]
+        {
+            verif_harness::cfbpatch::read_regular_stream(&bytes, "Workbook").expect("Workbook stream")
+        }
     })
 }
 
@@ -1839,6 +1992,44 @@ fn fixture_projects() -> Vec<(String, Vec<u8>)> {
     out
 }
 
+/// without the hooks: the fixture's vbaProject.bin as a whole — `VbaProject::new` against the composed model
+/// (`projfile`: C13 reader model, then the C18 model), and through the workbook reader of the fixture
+#[cfg(not(feature = "hooks"))]
+fn run_fixture(cx: &mut Ctx, name: &str, bin: &[u8]) {
+    cx.rep.case(&format!("fixture {name} vbaProject.bin={}B", bin.len()), true);
+    cx.rep.count("fixture:project");
+    let imp = match guarded(|| {
+        let mut cur = Cursor::new(bin);
+        VbaProject::new(&mut cur, bin.len())
+    }) {
+        Ok(Ok(vp)) => canon_project(&vp),
+        Ok(Err(e)) => vba_class(&e),
+        Err(_) => "panic".into(),
+    };
+    let reply = cx.drv.ask(&format!("projfile {}", hex(bin)));
+    let model = canon_model_project(&reply).unwrap_or_else(|e| e);
+    if imp != model {
+        cx.rep.fail("impl_vs_model", "fixture-project", &format!("fixture {name}"), &imp, &model, "");
+    }
+    let seen = guarded(|| {
+        use calamine::Reader;
+        match calamine::open_workbook_auto(format!("/repo/tests/{name}")) {
+            Ok(mut wb) => match wb.vba_project() {
+                Some(Ok(p)) => canon_project(&p),
+                Some(Err(e)) => format!("reader-error:{e:?}"),
+                None => "no-project".into(),
+            },
+            Err(e) => format!("open-error:{e:?}"),
+        }
+    })
+    .unwrap_or_else(|_| "panic".into());
+    cx.rep.count("fixture:through-reader");
+    if seen != imp {
+        cx.rep.fail("impl_vs_model", "fixture-through-reader", &format!("fixture {name}"), &seen, &model, &imp);
+    }
+}
+
+#[cfg(feature = "hooks")]
 fn run_fixture(cx: &mut Ctx, name: &str, bin: &[u8]) {
     let Ok(Ok((dirc, mut cfb))) = guarded(|| {
         let mut cur = Cursor::new(bin);
@@ -1985,7 +2176,10 @@ fn main() {
         return;
     }
 
+    #[cfg(not(feature = "hooks"))]
+    rep.notes.push("built without verif-hooks: decompress_stream is reached through VbaProject::new (container under test = the module stream of a minimal project); skipped: the unit dir-walk comparison on valid dir streams (covered by the project stage; malformed dir streams go through VbaProject::new, outcome classes only), the compound-file read-back of every written stream, the per-stream fixture comparison (whole vbaProject.bin vs the composed model instead), the code-page and encoding-name sweeps; the model's bytes are decoded by the harness's own tables instead of XlsEncoding".into());
     // code pages: the model's table vs `XlsEncoding::from_codepage` on all 65536 values
+    #[cfg(feature = "hooks")]
     {
         let reply = drv.ask("cps");
         let known: std::collections::HashSet<u32> = reply.split(',').filter_map(|s| s.parse().ok()).collect();
